@@ -73,7 +73,7 @@ pub fn gen(prop: &str, scen: &str, _k: u64, seed: u64, tier: &str) -> Case {
             container(&mut case, &mut r_opt, len);
             case.input = random_input(&mut r_in, len, case.opt.dict);
             case.rbufs = random_rbufs(&mut r_ops);
-            case.set("field", r_f.below(24) as i64);
+            case.set("field", r_f.below(40) as i64);
             case.set("value_kind", r_f.below(6) as i64);
             case.set("fix_crc", r_f.below(2) as i64);
             case.set("value_seed", (r_f.next_u64() >> 1) as i64);
@@ -279,7 +279,7 @@ fn field(case: &Case, data: &[u8], ctx: &mut Ctx) -> Option<Violation> {
     let fix = case.knob("fix_crc") != 0;
     let vk = case.knob("value_kind");
     let fidx = case.knob("field") as usize;
-    let name: String;
+    let mut name = String::new();
     if case.fmt == "xz" {
         let streams = match parsers::xz_file(&file) {
             Ok(s) => s,
@@ -300,7 +300,63 @@ fn field(case: &Case, data: &[u8], ctx: &mut Ctx) -> Option<Violation> {
             let v = pick_value(vk, old, 0xFFFF_FFFF, rng) as u32;
             d[pos..pos + 4].copy_from_slice(&v.to_le_bytes());
         };
-        match (fidx % 16, b) {
+        // whole-structure damage: every block keeps its valid header CRC and check, only the
+        // index no longer describes the blocks
+        let block_span = |b: &parsers::XzBlock| (b.start, b.check_start + b.check_len);
+        match (fidx % 20, b) {
+            (16, Some(b)) => {
+                name = "block_duplicated".into();
+                let (a, e) = block_span(b);
+                let copy = damaged[a..e].to_vec();
+                damaged.splice(e..e, copy);
+            }
+            (17, Some(b)) => {
+                name = "block_removed".into();
+                let (a, e) = block_span(b);
+                damaged.drain(a..e);
+            }
+            (18, Some(_)) if nb >= 2 => {
+                name = "blocks_swapped".into();
+                let i = rng.urange(0, nb - 2);
+                let (a0, e0) = block_span(&s.blocks[i]);
+                let (a1, e1) = block_span(&s.blocks[i + 1]);
+                let first = damaged[a0..e0].to_vec();
+                let second = damaged[a1..e1].to_vec();
+                let mut both = second;
+                both.extend_from_slice(&first);
+                damaged.splice(a0..e1, both);
+            }
+            (19, Some(_)) => {
+                name = "index_record_removed".into();
+                // a well-formed index (count, padding, CRC32, backward size) with one record less
+                let drop = rng.urange(0, nb - 1);
+                let mut idx = vec![0u8];
+                parsers::write_vli((nb - 1) as u64, &mut idx);
+                for (i, blk) in s.blocks.iter().enumerate() {
+                    if i != drop {
+                        parsers::write_vli(blk.unpadded_size, &mut idx);
+                        parsers::write_vli(blk.uncompressed_size, &mut idx);
+                    }
+                }
+                while idx.len() % 4 != 0 {
+                    idx.push(0);
+                }
+                let crc = parsers::crc32(&idx);
+                idx.extend_from_slice(&crc.to_le_bytes());
+                let new_len = idx.len();
+                damaged.splice(s.index_start..s.index_start + s.index_len, idx);
+                let fs = s.index_start + new_len;
+                let bw = (new_len / 4 - 1) as u32;
+                damaged[fs + 4..fs + 8].copy_from_slice(&bw.to_le_bytes());
+                parsers::xz_fix_footer_crc(&mut damaged, fs);
+            }
+            _ if fidx % 20 >= 16 => {
+                name = "structure_edit_not_applicable".into();
+            }
+            _ => {}
+        }
+        match (fidx % 20, b) {
+            (16..=19, _) => {}
             (0, _) => {
                 name = "stream_flags_0".into();
                 set_byte(&mut damaged, s.start + 6, &mut rng);
